@@ -221,6 +221,29 @@ Theorem C02_parsed_object_values :
 Proof. exact MultEndProofs.parsed_object_values. Qed.
 Print Assumptions C02_parsed_object_values.
 
+(* Input that the grammar accepts never fails with 'Multiple assignments': if building the rule's object ends in a
+   semantic error, that error was raised while one of the children was converted (by a nested object, to which this
+   theorem applies in turn) or by the object-name check - not by the multiple-assignment guard of this object. *)
+Theorem C02_parsed_object_no_mult_assign :
+  forall g mm input grp auto use_grp attr_id orc,
+  MultBuild.asg_table_okb g mm = true ->
+  forall b nid fuel psq s kids s' cls attrs top,
+  MultPeg.den g mm attr_id true b nid = true -> grammar_ok b = true ->
+  Peg.parse g input orc false fuel nid psq s = Peg.Ok (Peg.RTree (Peg.NT nid kids)) s' ->
+  Build.info mm nid = Build.IRule Build.RCommon cls attrs ->
+  MultBuild.mult_agreesb attr_id b attrs = true ->
+  forallb (MultBuild.kid_okb mm) kids = true ->
+  Build.pnode g mm input grp auto use_grp (Peg.NT nid kids) top = Build.BErr Build.ESem ->
+  (exists k c', In k kids /\ Build.pnode g mm input grp auto use_grp k (Some c') = Build.BErr Build.ESem /\
+     (MultBuild.pureb mm k = true \/
+      exists n' ks a o k0 c'', k = Peg.NT n' ks /\ Build.info mm n' = Build.IAsgn a o /\ In k0 ks /\
+                               Build.pnode g mm input grp auto use_grp k0 (Some c'') = Build.BErr Build.ESem))
+  \/ (exists c1, Build.each_loop (Build.pnode g mm input grp auto use_grp) kids
+                   (Some (Build.mkCur cls attrs (Build.tpos (Peg.NT nid kids)) (Build.tend (Peg.NT nid kids)) (Build.init_attrs auto attrs)))
+                 = Build.BOk (Some c1) /\ Build.name_ok (Build.c_vals c1) = false).
+Proof. exact MultEndProofs.parsed_object_no_mult_assign. Qed.
+Print Assumptions C02_parsed_object_no_mult_assign.
+
 (* Whole run, memoization off or on: Peg.run -> Build.build.  With memoization on, the parser model must be
    context-constant and the un-memoized run must terminate with this fuel (C19's memo_safe). *)
 Theorem C02_run_object_values :
